@@ -1,5 +1,6 @@
 """C03 - addition and subtraction are physically sound, also for derived units.
 One + / - step from operands built by the real operators; symbolic: every leaf amount."""
+import json
 import random
 
 import z3
@@ -8,7 +9,7 @@ from symx.check import Raised
 from symx.core import approx, zabs
 
 from . import exprs
-from .common import build, dims_of, get_db, mag_of, n_leaves, oracle_convert, qmap, seeded_sample, spec_str
+from .common import first_value, leaf_class, build, dims_of, get_db, mag_of, n_leaves, oracle_convert, qmap, seeded_sample, spec_str
 
 PID = "C03"
 FUNCTIONS = ["Scalar.__add__/__sub__/__radd__/__rsub__/_DoOperation", "UnitDatabase.Sum/Subtract/_DoOperationWithSameQuantity",
@@ -54,6 +55,9 @@ def items(tier, seed):
     simple += seeded_sample(allp, 300 if tier == "quick" else 6000, seed)
     for qt, u, v in simple:
         out.append({"t": "simple", "qt": qt, "A": ["leaf", u, qt], "B": ["leaf", v, qt], "op": rng.choice(["add", "sub"])})
+    for i, c in enumerate(out):
+        if i % 5 == 0 and c["t"] != "simple" and "pow" not in json.dumps(c):
+            c["arr"] = ["numpy", "list", "tuple"][(i // 5) % 3]
     out[0]["canary"] = True
     for c in out:
         if c["t"] == "area" and c["A"] != c["B"]:
@@ -68,13 +72,14 @@ def inputs(cfg):
 
 
 def _vq(o):
-    return (o.GetAbstractValue(), qmap(o))
+    return (first_value(o), qmap(o))
 
 
 def run(cfg, V):
     ctr = [0]
-    A = build(cfg["A"], V, ctr)
-    B = build(cfg["B"], V, ctr)
+    cls = leaf_class(cfg.get("arr"))
+    A = build(cfg["A"], V, ctr, cls)
+    B = build(cfg["B"], V, ctr, cls)
     if cfg["op"] == "add":
         r = A + B
         back = r - B
@@ -99,7 +104,7 @@ def props(cfg, T, obs):
         b_in_a = oracle_convert(db, cfg["qt"], v, u, T["x1"])
         want = T["x0"] + b_in_a if cfg["op"] == "add" else T["x0"] - b_in_a
         sc = zabs(T["x0"]) + zabs(b_in_a) + 1
-        P = [("result is a Scalar", obs["cls"] == "Scalar"),
+        P = [("result is a Scalar (Array for Array operands)", obs["cls"] == ("Array" if cfg.get("arr") else "Scalar")),
              ("result has the left operand's units and categories", bool(obs["same_q"]) and obs["r"][1] == obs["A"][1]),
              ("value(a+-b) ~ value(a) +- value(b re-expressed in a's unit)", approx(obs["r"][0], want, sc)),
              ("(a+-b)-+b ~ a (value)", z3.And(approx(obs["back"][0], T["x0"], sc), z3.BoolVal(bool(obs["back_same_q"]))))]
@@ -108,7 +113,7 @@ def props(cfg, T, obs):
     want = mA + mB if cfg["op"] == "add" else mA - mB
     sc = zabs(mA) + zabs(mB) + 1  # rounding of each operand is relative to the operand, not to the (possibly cancelling) sum
     P = [
-        ("result is a Scalar", obs["cls"] == "Scalar"),
+        ("result is a Scalar (Array for Array operands)", obs["cls"] == ("Array" if cfg.get("arr") else "Scalar")),
         ("result has the left operand's units and categories", bool(obs["same_q"]) and obs["r"][1] == obs["A"][1]),
         ("mag(a+-b)~mag(a)+-mag(b)", approx(mr, want, sc)),
         ("(a+-b)-+b~a", z3.And(approx(mback, mA, sc), z3.BoolVal(bool(obs["back_same_q"])))),
@@ -121,4 +126,4 @@ def props(cfg, T, obs):
 
 
 def finding_key(cfg, name):
-    return "%s %s %s :: %s" % (spec_str(cfg["A"]), "+" if cfg["op"] == "add" else "-", spec_str(cfg["B"]), name)
+    return "%s %s %s%s :: %s" % (spec_str(cfg["A"]), "+" if cfg["op"] == "add" else "-", spec_str(cfg["B"]), " [Array.%s]" % cfg["arr"] if cfg.get("arr") else "", name)
